@@ -48,6 +48,19 @@ def run(tier, deadline):
                 j = json.loads(ln)
                 if j["t"] == "viol": viol.setdefault(j["sig"], [0, "cat " + j["case"]])[0] += j["n"]
                 elif j["t"] == "stat": cat_evals[0] += j["evaluations"]
+    # ---- pass 1c: no store touches a byte outside the addressed range (hardware write watchpoints on the neighbouring bytes): an invented store -
+    # a word read, modified and written back - would undo what another thread writes to bytes it owns in the same word
+    ip = os.path.join(ROOT, "build", "c18", "inplace"); os.makedirs(os.path.dirname(ip), exist_ok=True)
+    common.cc(ip, [os.path.join(ROOT, "engine", "c18", "inplace.c")], ["-O1", "-g", "-w", "-ldl"])
+    watch_calls = 0
+    for wlib in (("prod",) if tier == "quick" else ("prod", "O2", "clangO2")):
+        rw = subprocess.run([ip, "80"], capture_output=True, text=True, env=dict(os.environ, CAT_LIB=vbuild.build(wlib), C12_WATCH="1"))
+        if rw.returncode != 0: internal.append(f"watchpoint pass {wlib}: exit {rw.returncode} {rw.stderr[-200:]}"); continue
+        for ln in rw.stdout.splitlines():
+            if not ln.startswith("{"): continue
+            j = json.loads(ln)
+            if j["t"] == "viol": viol.setdefault(j["sig"] + ("" if wlib == "prod" else "|lib=" + wlib), [0, f"watch {wlib} " + j["case"]])[0] += j["n"]
+            elif j["t"] == "stat": watch_calls += j["calls"]
     # ---- pass 2: interleavings
     jobs = []
     for a, b in itertools.combinations_with_replacement(ops, 2):
@@ -102,7 +115,7 @@ def run(tier, deadline):
            "op_footprints": [{k: f[k] for k in ("op", "v", "accesses", "writes", "first_written", "changed_bytes")} for f in fp if f["accesses"]],
            "catalogue_calls_checked_for_static_footprint": cat_evals[0], "evaluations": cat_evals[0] + stats["schedules"],
            "distinct_nontrivial": stats["states"],
-           "rule": "scheduling point = every instruction that touches libsafec's .data/.bss (page-trap + single-step); DFS over choice sequences with iterative preemption bound and state-hash pruning (dirty static pages + per-thread read history + progress); oracle: every op's return value and output bytes equal its solo run; footprint: static segment bit-identical before/after every call",
+           "rule": "watchpoint pass: every erase/fill entry point x n 1..72 x start offset 0..15 with hardware write watchpoints on the byte in front of and the byte behind the addressed range (a store that writes a neighbouring byte back unchanged is counted too); scheduling point = every instruction that touches libsafec's .data/.bss (page-trap + single-step); DFS over choice sequences with iterative preemption bound and state-hash pruning (dirty static pages + per-thread read history + progress); oracle: every op's return value and output bytes equal its solo run; footprint: static segment bit-identical before/after every call",
            "thread_sets_timed_out": len(timed_out)}
     assumptions = ["x86-64 Linux page-fault error code and trap flag semantics", "thread-private operands are really private (stack/TLS buffers of the harness)",
                    "libc functions with static state by contract are not called by the explored ops (asctime_r/ctime_r/strerror_r variants are used by the library)"]
@@ -114,7 +127,10 @@ def replay(kv, quiet=False):
     lib = vbuild.build("prod")
     env = dict(os.environ, CAT_LIB=lib, C12_TMPDIR=os.path.join(ROOT, "build", "trapvm"))
     case = kv["case"]
-    if case.startswith("replay "):
+    if case.startswith("watch "):
+        c = case.split(); ip = os.path.join(ROOT, "build", "c18", "inplace"); common.cc(ip, [os.path.join(ROOT, "engine", "c18", "inplace.c")], ["-O1", "-g", "-w", "-ldl"])
+        r = subprocess.run([ip, "replay"] + c[2:], capture_output=True, text=True, env=dict(os.environ, CAT_LIB=vbuild.build(c[1]), C12_WATCH="1"))
+    elif case.startswith("replay "):
         r = subprocess.run([BIN, "quick"] + case.split(), capture_output=True, text=True, env=env)
     elif case.startswith("footprint "):
         r = subprocess.run([BIN, "quick", "footprint"], capture_output=True, text=True, env=env)
